@@ -641,7 +641,28 @@ def rule_spanned(rep, crate, cfg):
         rep.inst(rid, cfg + ':SpannedIter::next', detail=d)
         m = re.fullmatch(r'call:std::option::Option::<T>::map\(call:<lexer::Lexer as std::iter::Iterator>::next\(self\.lexer\),agg:closure:(.*)\{0=self\.lexer\}\)', d)
         if not m:
-            rep.viol(rid, 'SpannedIter::next:shape', 'SpannedIter::next returns %s, expected self.lexer.next().map(|t| (t, self.lexer.span()))' % d, loc(fn))
+            # equivalent straight-line form: `let token = self.lexer.next()?; Some((token, self.lexer.span()))` (or a match)
+            nexts = find_calls(fn, r'^<lexer::Lexer<.*> as std::iter::Iterator>::next$')
+            spans = find_calls(fn, r'^lexer::Lexer::<.*>::span$')
+            other = sorted({fn.callee_name(t) for _b, t in fn.calls()} - {fn.callee_name(t) for _b, t in nexts + spans})
+            other = [c for c in other if not re.search(r'(ops::Try>::branch|ops::FromResidual<.*>>::from_residual|Option::<T>::map)$', c)]
+            somes = [(bi, x) for kind, bi, si, x in fn.defs().get(0, []) if kind == 'stmt' and bi in fn.live_blocks() and x['rhs']['rv'] == 'agg' and x['rhs']['kind'].get('variant') == 'Some']
+            ok = len(nexts) == 1 and len(spans) == 1 and not other and len(somes) == 1
+            if ok:
+                nb, nt = nexts[0]
+                sb_, st_ = spans[0]
+                ok = desc(fn, nt['args'][0]) == 'self.lexer' and desc(fn, st_['args'][0]) == 'self.lexer' and fn.dominates_block(nb, sb_) and nb != sb_
+            if ok:
+                pay = trace(fn, somes[0][1]['rhs']['ops'][0])
+                ok = pay[0] == 'agg' and len(pay[2]['rhs']['ops']) == 2
+                if ok:
+                    o0, o1 = pay[2]['rhs']['ops']
+                    s0 = fn.slice(o0)
+                    ok = (nexts[0][1]['dest']['local'] in s0.locals and not s0.binops
+                          and not [c for c in s0.calls if not re.search(r'(Iterator>::next|ops::Try>::branch)$', c)]
+                          and desc(fn, o1).startswith('call:lexer::Lexer::span(self.lexer'))
+            if not ok:
+                rep.viol(rid, 'SpannedIter::next:shape', 'SpannedIter::next returns %s, expected self.lexer.next().map(|t| (t, self.lexer.span())) or `let t = self.lexer.next()?; Some((t, self.lexer.span()))`' % d, loc(fn))
         else:
             clo = crate.fns.get(m.group(1))
             if clo is None:
@@ -1023,6 +1044,16 @@ def mapping_of(crate, fn):
             return {'None': closure_result(crate, fn, a[1]), 'Some': closure_result(crate, fn, a[2])}
         if re.search(r'result::Result::<T, E>::map_or$', nm) and len(a) == 3:
             return {'Err': closure_result(crate, fn, a[1]), 'Ok': closure_result(crate, fn, a[2])}
+    # composition form: SkipRetVal::construct(self).into() / CallbackResult::from(..): the documented From<SkipResult>
+    # conversion (Skip -> Skip, Error(e) -> Error(e), checked as its own row) applied to the skip mapping of the same type
+    if rr and rr[0] == 'call' and re.search(r'(convert::Into<U>>::into|CallbackResult<.*> as std::convert::From<.*SkipResult.*>>::from)$', fn.callee_name(rr[2])) and fn.locals[0].startswith('internal::CallbackResult'):
+        inner = trace(fn, rr[2]['args'][0])
+        if inner[0] == 'call' and re.search(r'internal::SkipRetVal<.*>>::construct$', fn.callee_name(inner[2])) and desc(fn, inner[2]['args'][0]) in ('param1', 'self'):
+            g = crate.fns.get(fn.callee_name(inner[2]))
+            if g is not None and g.name != fn.name:
+                im = mapping_of(crate, g)
+                conv = {'Skip': 'Skip', 'Error': 'Error'}
+                return {k: ((conv.get(v[0], '?' + str(v[0])), v[1])) for k, v in im.items()}
     if not sw:
         r = result_aggs(fn)
         return {'*': r[0]} if len(r) == 1 else {'*': ('?multi', None)}
